@@ -294,12 +294,23 @@ func verifRunServed(out *verifkit.Trace, sim *verifsim.Sim, rng *rand.Rand, sid 
 			}
 		} else if split == len(items) && rng.Intn(2) == 0 {
 			doc["orderedItems"] = items
+		} else if split < len(items) && rng.Intn(3) == 0 {
+			/* the first items on the collection itself, the rest on a page behind `first` */
+			doc["orderedItems"] = items[:split]
+			doc["first"] = h.URL(root + "?page=1")
+			serve(h, root+"?page=1", map[string]any{"type": "OrderedCollectionPage", "orderedItems": items[split:], "partOf": h.URL(root)}, 0)
 		} else {
 			doc["first"] = h.URL(root + "?page=1")
 			page1 := map[string]any{"type": "OrderedCollectionPage", "orderedItems": items[:split]}
 			if split < len(items) {
 				page1["next"] = h.URL(root + "?page=2")
-				serve(h, root+"?page=2", map[string]any{"type": "OrderedCollectionPage", "orderedItems": items[split:]}, 0)
+				page2 := map[string]any{"type": "OrderedCollectionPage", "orderedItems": items[split:]}
+				if rng.Intn(2) == 0 {
+					/* pages say where the collection begins and which one came before: no part of the walk */
+					page2["first"], page2["prev"], page2["partOf"] = h.URL(root+"?page=1"), h.URL(root+"?page=1"), h.URL(root)
+					page1["first"], page1["partOf"] = h.URL(root+"?page=1"), h.URL(root)
+				}
+				serve(h, root+"?page=2", page2, 0)
 			}
 			serve(h, root+"?page=1", page1, 0)
 		}
